@@ -4,7 +4,7 @@
 (* of the lexer; the lexer machine runs on each, the invariants are        *)
 (* checked in every state and one LEX line is printed per string.          *)
 (***************************************************************************)
-EXTENDS SeedLex, Json
+EXTENDS SeedLex, SeedGrammar, Json
 
 CONSTANTS MaxLen, Alphabet, Wraps      \* Wraps: set of <<prefix, suffix>> put around every string
 
@@ -16,8 +16,15 @@ MCLexInit == \E n \in 0 .. MaxLen : \E text \in Strings(n) : \E w \in Wraps :
                 body = text /\ LexInit(w[1] \o text \o w[2])
 MCLexNext == LexNext /\ body' = body
 
+Kinds == [i \in 1 .. Len(toks) |-> toks[i].k]
+Predicted ==
+    LET v == Verdict(Kinds) IN
+    IF mode = "failed"
+    THEN IF v.at <= Len(toks) THEN [kind |-> "syntax", at |-> v.at] ELSE [kind |-> "lexical", at |-> 0]
+    ELSE IF v.ok THEN [kind |-> "accept", at |-> 0] ELSE [kind |-> "syntax", at |-> v.at]
+
 EmitLex == mode \in {"done", "failed"} =>
-              PrintT("LEX " \o ToJson([src |-> src, toks |-> toks, err |-> err, msg |-> LexMsg(err)]))
+              PrintT("LEX " \o ToJson([src |-> src, toks |-> toks, err |-> err, msg |-> LexMsg(err), parse |-> Predicted]))
 
 NoWrap == {<<(<<>>), (<<>>)>>}
 \* p("...")  and  p($"...")
